@@ -61,7 +61,7 @@ def c06(tier, seed):
         S("Wheat", "LoamySand", seed=seed + 21, regime="hot", iwc={"wc_type": "Pct", "value": [15]}, wparams={"pwet": 0.0}, seasons=2),
         S("Barley", "SiltLoam", seed=seed + 22, seasons=4, irr={"method": 2, "kw": {"IrrInterval": 10}}),
         S("Tef", "Clay", seed=seed + 23, seasons=3, off_season=True, irr={"method": 1, "kw": {"SMT": [70] * 4}}),
-        S("Sorghum", "Loam", seed=seed + 24, seasons=2, off_season=True, harvest_date="08/10", irr={"method": 5, "kw": {"depth": 3}}),
+        S("Sorghum", "Loam", seed=seed + 24, seasons=2, off_season=True, harvest_date="07/01", irr={"method": 5, "kw": {"depth": 3}}),
         S("MaizeGDD", "SandyLoam", seed=seed + 25, regime="hot", seasons=2, irr={"method": 4, "kw": {"NetIrrSMT": 60}}, iwc={"wc_type": "Pct", "value": [20]}),
         S("SugarBeet", "SiltClayLoam", seed=seed + 26, irr={"method": 3, "schedule": sched, "kw": {"MaxIrr": 35}}, seasons=2),
     ]
